@@ -6,6 +6,8 @@ holds in every state reachable without a panic, whatever the prior history.
 -/
 import Orda.Proofs.Replay
 import Orda.Proofs.ListTxNet
+import Orda.Proofs.MapTxNet
+import Orda.Proofs.DocTxNet
 namespace Orda.Props.C09
 open Orda
 
@@ -105,5 +107,36 @@ theorem with_transactions_replicas_still_converge (cuid : Nat → String) (n : N
     (hq : LNet.Quiescent net) (i j : Nat) (hi : i < net.nodes.length) (hj : j < net.nodes.length) :
     net.nodes[i].r.state = net.nodes[j].r.state :=
   ltx_quiescent_converged h hq i j hi hj
+
+/-! ### the same END TO END for maps, counters (`MTx`, Proofs/MapTxNet) and documents (`DTx`, Proofs/DocTxNet, where PatchByJSON is a
+step too) -/
+
+open Orda.MTx in
+theorem map_counter_units_all_or_nothing (typ : DtType) (hf : MNet.Flat typ) (cuid : Nat → String) (n : Nat) (net : MNet.Net)
+    (h : MTx.Reach typ cuid n net) :
+    ∃ units : List (Nat × List Op),
+      net.log = units.flatMap (fun (a, u) => u.map (a, ·)) ∧ (∀ au ∈ units, LTx.IsUnit au.2) ∧
+      ∀ (i : Nat) (nd : MNet.Node), net.nodes[i]? = some nd → ∀ au ∈ units, au.1 ≠ i →
+        (∀ o ∈ au.2, MTx.Applied net i (au.1, o)) ∨ (∀ o ∈ au.2, ¬ MTx.Applied net i (au.1, o)) :=
+  mtx_all_or_nothing hf h
+
+open Orda.DTx in
+theorem document_units_all_or_nothing (cuid : Nat → String) (n : Nat) (net : DNet.Net) (h : DTx.Reach cuid n net) :
+    ∃ units : List (Nat × List Op),
+      net.log = units.flatMap (fun (a, u) => u.map (a, ·)) ∧ (∀ au ∈ units, LTx.IsUnit au.2) ∧
+      ∀ (i : Nat) (nd : DNet.Node), net.nodes[i]? = some nd → ∀ au ∈ units, au.1 ≠ i →
+        (∀ o ∈ au.2, DTx.Applied net i (au.1, o)) ∨ (∀ o ∈ au.2, ¬ DTx.Applied net i (au.1, o)) :=
+  dtx_all_or_nothing h
+
+open Orda.DTx in
+/-- a failing document transaction (any body of valid calls) changes nothing, in every reachable state -/
+theorem document_failed_transaction_changes_nothing (cuid : Nat → String) (n : Nat) (net : DNet.Net) (h : DTx.Reach cuid n net)
+    (i : Nat) (nd : DNet.Node) (hi : net.nodes[i]? = some nd) (tag : String) (calls : List Call) (stopOnErr failAtEnd : Bool)
+    (c : Nat) (he : (nd.r.txCalls tag calls stopOnErr failAtEnd).2.2 = .err c) :
+    (nd.r.txCalls tag calls stopOnErr failAtEnd).1.opId = nd.r.opId ∧
+    (nd.r.txCalls tag calls stopOnErr failAtEnd).1.state = nd.r.state ∧
+    (nd.r.txCalls tag calls stopOnErr failAtEnd).1.buffer = nd.r.buffer ∧
+    (nd.r.txCalls tag calls stopOnErr failAtEnd).1.cp = nd.r.cp :=
+  dtx_failed_tx_is_noop h hi tag calls stopOnErr failAtEnd c he
 
 end Orda.Props.C09
